@@ -104,7 +104,8 @@ pub fn plan_chunks(j: usize, size: u8, plan: u8) -> (Vec<Vec<u8>>, bool) {
     let size = size as usize;
     match plan {
         0 => (vec![vec![b; size]], false),
-        1 => (vec![vec![b; size / 2], vec![b; size - size / 2]], false),
+        // 8: as 1 with the caller-chosen packet id 5; 9: as 1 with a topic the encoder must refuse
+        1 | 8 | 9 => (vec![vec![b; size / 2], vec![b; size - size / 2]], false),
         2 => (vec![vec![b; size / 2], vec![b; size - size / 2 + 1]], false),
         _ => (vec![vec![b; size / 2]], true),
     }
@@ -142,7 +143,7 @@ async fn run_sender_v5(sink: ntex_mqtt::v5::MqttSink, kind: SK, j: usize, app: A
         }
         SK::Stream { qos, size, plan } => {
             let (chunks, drop_after) = plan_chunks(j, size, plan);
-            let topic = bs(&format!("s{j}"));
+            let topic = if plan == 9 { bs(&"L".repeat(65_536)) } else { bs(&format!("s{j}")) };
             if qos == 0 {
                 match sink.publish(topic).stream_at_most_once(u32::from(size)) {
                     Err(e) => push(format!("err:{e:?}")),
@@ -168,7 +169,11 @@ async fn run_sender_v5(sink: ntex_mqtt::v5::MqttSink, kind: SK, j: usize, app: A
                     }
                 }
             } else {
-                let (fut, pl) = sink.publish(topic).stream_at_least_once(u32::from(size));
+                let mut b = sink.publish(topic);
+                if plan == 8 {
+                    b = b.packet_id(5);
+                }
+                let (fut, pl) = b.stream_at_least_once(u32::from(size));
                 let app2 = app.clone();
                 let chunks2 = chunks.clone();
                 let feeder = ntex_rt::spawn(async move {
@@ -334,7 +339,7 @@ async fn run_sender_v3(sink: ntex_mqtt::v3::MqttSink, kind: SK, j: usize, app: A
         }
         SK::Stream { qos, size, plan } => {
             let (chunks, drop_after) = plan_chunks(j, size, plan);
-            let topic = bs(&format!("s{j}"));
+            let topic = if plan == 9 { bs(&"L".repeat(65_536)) } else { bs(&format!("s{j}")) };
             if qos == 0 {
                 match sink.publish(topic).stream_at_most_once(u32::from(size)) {
                     Err(e) => push(format!("err:{e:?}")),
@@ -360,7 +365,11 @@ async fn run_sender_v3(sink: ntex_mqtt::v3::MqttSink, kind: SK, j: usize, app: A
                     }
                 }
             } else {
-                let (fut, pl) = sink.publish(topic).stream_at_least_once(u32::from(size));
+                let mut b = sink.publish(topic);
+                if plan == 8 {
+                    b = b.packet_id(5);
+                }
+                let (fut, pl) = b.stream_at_least_once(u32::from(size));
                 let app2 = app.clone();
                 let chunks2 = chunks.clone();
                 let feeder = ntex_rt::spawn(async move {
@@ -1264,9 +1273,14 @@ impl Scenario for Out {
                 let mut a = self.app.borrow_mut();
                 a[j].started = true;
                 a[j].handle = Some(h);
-                if let SK::Q1Id(id) = kind {
+                let chosen = |k: SK| match k {
+                    SK::Q1Id(id) => Some(id),
+                    SK::Stream { plan: 8, .. } => Some(5),
+                    _ => None,
+                };
+                if let Some(id) = chosen(kind) {
                     for k in 0..a.len() {
-                        if k != j && self.cfg.senders[k] == SK::Q1Id(id) && a[k].started && !a[k].done {
+                        if k != j && chosen(self.cfg.senders[k]) == Some(id) && a[k].started && !a[k].done {
                             self.id_overlap[j] = true;
                             self.id_overlap[k] = true;
                         }
@@ -1435,8 +1449,12 @@ impl Scenario for Out {
                 // "packet id in use" is only a legitimate answer if another send with the same caller-chosen id
                 // (that really went out) was outstanding at some time during this sender's life
                 // a send attempted while a streamed publish is open is refused by design
-                let during_stream = self.cfg.senders.iter().any(|k| matches!(k, SK::Stream { .. })) && s.results.iter().all(|r| !r.starts_with("err") || r.contains("ExpectPayload"));
+                let during_stream = self.cfg.senders.iter().any(|k| matches!(k, SK::Stream { plan, .. } if *plan != 9)) && s.results.iter().all(|r| !r.starts_with("err") || r.contains("ExpectPayload"));
+                // a streamed publish whose header the encoder must refuse (plan 9), or whose caller-chosen id is taken (plan 8)
+                let bad_stream = matches!(self.cfg.senders[j], SK::Stream { plan: 9, .. })
+                    || (matches!(self.cfg.senders[j], SK::Stream { plan: 8, .. }) && self.id_overlap[j] && s.results.iter().all(|r| !r.starts_with("err") || r.contains("PacketIdInUse") || r.contains("StreamingCancelled")));
                 let expected_local_failure = during_stream
+                    || bad_stream
                     || matches!(self.cfg.senders[j], SK::Q1Big | SK::Q1BigId(_) | SK::SubBig)
                     || (matches!(self.cfg.senders[j], SK::Q1Id(_)) && self.id_overlap[j] && s.results.iter().all(|r| !r.starts_with("err") || r.contains("PacketIdInUse")));
                 if s.started && !s.cancelled && !expected_local_failure && s.results.iter().any(|r| r.starts_with("err")) {
